@@ -87,6 +87,10 @@ SPIF_TYPE(strclass) SPIF_STRCLASS_VAR(str) = &s_class;
 
 static const size_t buff_inc = 4096;
 
+/* Text of a non-NULL string object: its buffer, or an empty C string while it has none. */
+static char no_text[1] = "";
+#define TEXT_OF(obj)  (((obj)->s) ? ((obj)->s) : ((spif_charptr_t) no_text))
+
 spif_str_t
 spif_str_new(void)
 {
@@ -429,7 +433,7 @@ spif_str_casecmp(spif_str_t self, spif_str_t other)
     int c;
 
     SPIF_OBJ_COMP_CHECK_NULL(self, other);
-    c = strcasecmp((char *) SPIF_STR_STR(self), (char *) SPIF_STR_STR(other));
+    c = strcasecmp((char *) TEXT_OF(self), (char *) TEXT_OF(other));
     return SPIF_CMP_FROM_INT(c);
 }
 
@@ -439,7 +443,7 @@ spif_str_casecmp_with_ptr(spif_str_t self, spif_charptr_t other)
     int c;
 
     SPIF_OBJ_COMP_CHECK_NULL(self, other);
-    c = strcasecmp((char *) SPIF_STR_STR(self), (char *) other);
+    c = strcasecmp((char *) TEXT_OF(self), (char *) other);
     return SPIF_CMP_FROM_INT(c);
 }
 
@@ -461,7 +465,7 @@ spif_str_cmp(spif_str_t self, spif_str_t other)
     int c;
 
     SPIF_OBJ_COMP_CHECK_NULL(self, other);
-    c = strcmp((char *) SPIF_STR_STR(self), (char *) SPIF_STR_STR(other));
+    c = strcmp((char *) TEXT_OF(self), (char *) TEXT_OF(other));
     return SPIF_CMP_FROM_INT(c);
 }
 
@@ -471,7 +475,7 @@ spif_str_cmp_with_ptr(spif_str_t self, spif_charptr_t other)
     int c;
 
     SPIF_OBJ_COMP_CHECK_NULL(self, other);
-    c = strcmp((char *) SPIF_STR_STR(self), (char *) other);
+    c = strcmp((char *) TEXT_OF(self), (char *) other);
     return SPIF_CMP_FROM_INT(c);
 }
 
@@ -497,10 +501,10 @@ spif_str_find(spif_str_t self, spif_str_t other)
 
     ASSERT_RVAL(!SPIF_STR_ISNULL(self), ((spif_stridx_t) -1));
     REQUIRE_RVAL(!SPIF_STR_ISNULL(other), ((spif_stridx_t) -1));
-    tmp = strstr((const char *) SPIF_STR_STR(self),
-                 (const char *) SPIF_STR_STR(other));
+    tmp = strstr((const char *) TEXT_OF(self),
+                 (const char *) TEXT_OF(other));
     if (tmp) {
-        return (spif_stridx_t) ((spif_long_t) tmp - (spif_long_t) (SPIF_STR_STR(self)));
+        return (spif_stridx_t) ((spif_long_t) tmp - (spif_long_t) (TEXT_OF(self)));
     } else {
         return (spif_stridx_t) (self->len);
     }
@@ -513,10 +517,10 @@ spif_str_find_from_ptr(spif_str_t self, spif_charptr_t other)
 
     ASSERT_RVAL(!SPIF_STR_ISNULL(self), ((spif_stridx_t) -1));
     REQUIRE_RVAL((other != (spif_charptr_t) NULL), ((spif_stridx_t) -1));
-    tmp = strstr((const char *) SPIF_STR_STR(self),
+    tmp = strstr((const char *) TEXT_OF(self),
                  (const char *) other);
     if (tmp) {
-        return (spif_stridx_t) ((spif_long_t) tmp - (spif_long_t) (SPIF_STR_STR(self)));
+        return (spif_stridx_t) ((spif_long_t) tmp - (spif_long_t) (TEXT_OF(self)));
     } else {
         return (spif_stridx_t) (self->len);
     }
@@ -528,9 +532,9 @@ spif_str_index(spif_str_t self, spif_char_t c)
     char *tmp;
 
     ASSERT_RVAL(!SPIF_STR_ISNULL(self), ((spif_stridx_t) -1));
-    tmp = index((const char *) SPIF_STR_STR(self), c);
+    tmp = index((const char *) TEXT_OF(self), c);
     if (tmp) {
-        return (spif_stridx_t) ((spif_long_t) tmp - (spif_long_t) (SPIF_STR_STR(self)));
+        return (spif_stridx_t) ((spif_long_t) tmp - (spif_long_t) (TEXT_OF(self)));
     } else {
         return (spif_stridx_t) (self->len);
     }
@@ -542,7 +546,7 @@ spif_str_ncasecmp(spif_str_t self, spif_str_t other, spif_stridx_t cnt)
     int c;
 
     SPIF_OBJ_COMP_CHECK_NULL(self, other);
-    c = strncasecmp((char *) SPIF_STR_STR(self), (char *) SPIF_STR_STR(other), cnt);
+    c = strncasecmp((char *) TEXT_OF(self), (char *) TEXT_OF(other), cnt);
     return SPIF_CMP_FROM_INT(c);
 }
 
@@ -552,7 +556,7 @@ spif_str_ncasecmp_with_ptr(spif_str_t self, spif_charptr_t other, spif_stridx_t 
     int c;
 
     SPIF_OBJ_COMP_CHECK_NULL(self, other);
-    c = strncasecmp((char *) SPIF_STR_STR(self), (char *) other, cnt);
+    c = strncasecmp((char *) TEXT_OF(self), (char *) other, cnt);
     return SPIF_CMP_FROM_INT(c);
 }
 
@@ -562,7 +566,7 @@ spif_str_ncmp(spif_str_t self, spif_str_t other, spif_stridx_t cnt)
     int c;
 
     SPIF_OBJ_COMP_CHECK_NULL(self, other);
-    c = strncmp((char *) SPIF_STR_STR(self), (char *) SPIF_STR_STR(other), cnt);
+    c = strncmp((char *) TEXT_OF(self), (char *) TEXT_OF(other), cnt);
     return SPIF_CMP_FROM_INT(c);
 }
 
@@ -572,7 +576,7 @@ spif_str_ncmp_with_ptr(spif_str_t self, spif_charptr_t other, spif_stridx_t cnt)
     int c;
 
     SPIF_OBJ_COMP_CHECK_NULL(self, other);
-    c = strncmp((char *) SPIF_STR_STR(self), (char *) other, cnt);
+    c = strncmp((char *) TEXT_OF(self), (char *) other, cnt);
     return SPIF_CMP_FROM_INT(c);
 }
 
@@ -645,9 +649,9 @@ spif_str_rindex(spif_str_t self, spif_char_t c)
     char *tmp;
 
     ASSERT_RVAL(!SPIF_STR_ISNULL(self), ((spif_stridx_t) -1));
-    tmp = rindex((const char *) SPIF_STR_STR(self), c);
+    tmp = rindex((const char *) TEXT_OF(self), c);
     if (tmp) {
-        return (spif_stridx_t) ((spif_long_t) tmp - (spif_long_t) (SPIF_STR_STR(self)));
+        return (spif_stridx_t) ((spif_long_t) tmp - (spif_long_t) (TEXT_OF(self)));
     } else {
         return (spif_stridx_t) (self->len);
     }
@@ -816,14 +820,14 @@ double
 spif_str_to_float(spif_str_t self)
 {
     ASSERT_RVAL(!SPIF_STR_ISNULL(self), (double) NAN);
-    return (double) (strtod((const char *)SPIF_STR_STR(self), (char **) NULL));
+    return (double) (strtod((const char *)TEXT_OF(self), (char **) NULL));
 }
 
 size_t
 spif_str_to_num(spif_str_t self, int base)
 {
     ASSERT_RVAL(!SPIF_STR_ISNULL(self), ((size_t) -1));
-    return (size_t) (strtoul((const char *) SPIF_STR_STR(self), (char **) NULL, base));
+    return (size_t) (strtoul((const char *) TEXT_OF(self), (char **) NULL, base));
 }
 
 spif_bool_t
